@@ -106,7 +106,7 @@ class SubregionsProfile(HeapProfile):
     prop = "C14"
     name = "subregions"
     invariants = True
-    required_probes = ("reject_then_ok", "selection_ends_on_subregion_face", "extracted_mesh", "persist_json", "persist_hdf5", "aligned_true", "aligned_false")
+    required_probes = ("reject_then_ok", "selection_ends_on_subregion_face", "extracted_mesh", "persist_json", "persist_hdf5", "aligned_true", "aligned_false", "refused_sidecar_load")
     rule = (
         "one case = one seeded history (3-30 steps) on meshes with subregions: attachment of aligned boxes and of FAULTY "
         "candidates (misaligned by a fraction of a cell, fractional size, sticking out, wrong type/key), translate/scale/rotate90 "
@@ -142,6 +142,8 @@ class SubregionsProfile(HeapProfile):
         mm = st.h[s].box.v
         nd = mm.region.ndim
         if rng.random() < cfg["p_reject"]:
+            if rng.random() < 0.25:
+                return {"op": "S.load_bad", "on": s, "ax": rng.randrange(nd), "good_names": rng.random() < 0.5, "fault": "foreign_sidecar"}
             return draw_attach_bad(rng, s, mm)
         if rng.random() < cfg["p_persist"]:
             return {"op": "S.persist", "on": s, "how": rng.choice(["json", "hdf5"]), "restart": rng.random() < 0.4, "out": out}
